@@ -7,9 +7,13 @@
             (outcome 0 = no report, 1 = DATA RACE reported, 2 = panic/crash/hang), with the number of failing scanners
      CStress one observation of G goroutines that were released together and ran their operation lists on ONE
             shared container truly in parallel (no synchronisation added by the driver; -race build and normal
-            build): the per-goroutine results, the contents after the join and a sequential coda *)
-From Coq Require Import List Arith Bool Uint63.
-From IocVerif Require Import Model.SyncMap.
+            build): the per-goroutine results, the contents after the join and a sequential coda
+     CScan  one TIMED observation of such goroutines (scanners running Range / ToArray / ForEach / Load against
+            goroutines that store and delete the same few keys): every operation with a ticket taken before its call
+            and one taken after its return (one atomic counter); checked by Model/ScanCheck.scan_check (per-pair
+            provenance and per-key completeness of every observer; no snapshot is demanded of a Range) *)
+From Coq Require Import List Arith Bool Uint63 NArith.
+From IocVerif Require Import Model.SyncMap Model.ScanCheck.
 Import ListNotations.
 
 (* ---------- the whole exported API of the containers, on top of the sequential specification ----------
@@ -50,14 +54,23 @@ Record stress : Type := mkStress {
   s_fin : list (xop * ret)                (* sequential coda after the join *)
 }.
 
+Record scan : Type := mkScan {
+  sc_outcome : nat;                       (* 0 = ran to the end, otherwise panic / crash / hang / undecodable *)
+  sc_nkeys : nat;                         (* key universe 0 .. nkeys-1 *)
+  sc_recs : list trec;                    (* every operation (contents at the start = writes with tickets 0, the contents
+                                             after the join = one last Range), with its tickets *)
+  sc_partial : list (N * N * smap)        (* Ranges whose callback stopped the iteration: interval, reported pairs *)
+}.
+
 Inductive case : Type :=
 | CSeq (id : nat) (ops : list op) (rets : list ret)
 | CHist (id : nat) (progs : list (list op)) (obs : list sevent) (recs : list oprec)
 | CRace (id : nat) (outcome : nat) (nfail : nat)
-| CStress (id : nat) (s : stress).
+| CStress (id : nat) (s : stress)
+| CScan (id : nat) (s : scan).
 
 Definition cid (c : case) : nat :=
-  match c with CSeq i _ _ => i | CHist i _ _ _ => i | CRace i _ _ => i | CStress i _ => i end.
+  match c with CSeq i _ _ => i | CHist i _ _ _ => i | CRace i _ _ => i | CStress i _ => i | CScan i _ => i end.
 
 Fixpoint seq_rets (m : smap) (ops : list op) : list ret :=
   match ops with [] => [] | o :: r => snd (spec m o) :: seq_rets (fst (spec m o)) r end.
@@ -395,6 +408,61 @@ Example SB_example :
       [(0, 300); (1, 9)] [(XLength, RVal (Some 2)); (XP (ODelete 1), RNone)].
 Proof. vm_compute. reflexivity. Qed.
 
+(* ---------- timed observations (scans against churn) --------------------------------------------------------- *)
+Definition rec_pairs (a : trec) : smap := match t_ret a with RList l => l | _ => [] end.
+Definition scan_ok (s : scan) : bool :=
+  if Nat.eqb (sc_outcome s) 0 then
+    if forallb (fun a => forallb (fun p => Nat.ltb (fst p) (sc_nkeys s)) (rec_pairs a)) (sc_recs s)
+    then scan_check (sc_recs s) (sc_partial s) else false
+  else false.
+
+(* non-trivial: a full scan overlaps (in tickets) a write or delete of another operation *)
+Definition is_scan (a : trec) : bool := match t_op a with ORange => true | _ => false end.
+Definition scan_nontrivial (s : scan) : bool :=
+  lexistsb (fun r => if is_scan r
+                     then lexistsb (fun u => if has_eff u then if bef r u then false else negb (bef u r) else false) (sc_recs s)
+                     else false) (sc_recs s).
+
+(* transport: the same byte stream / packing as the stress observations; tickets are decoded to binary numbers *)
+Definition p_numN : P N := fun s =>
+  match s with
+  | 255 :: hi :: lo :: r => Some ((N.of_nat hi * 256 + N.of_nat lo)%N, r)
+  | 255 :: _ => None
+  | a :: r => Some (N.of_nat a, r)
+  | [] => None
+  end.
+Definition p_trec : P trec :=
+  p_bind p_xop (fun x => p_bind p_ret_ (fun r => p_bind p_numN (fun i => p_bind p_numN (fun j =>
+    match x with XP o => p_ret (mkT o r i j) | _ => fun _ => None end)))).
+Definition p_partial : P (N * N * smap) :=
+  p_bind p_numN (fun i => p_bind p_numN (fun j => p_bind (p_list p_pair) (fun l => p_ret (i, j, l)))).
+Definition p_scan : P scan :=
+  p_bind p_num (fun outcome => p_bind p_num (fun nkeys =>
+  p_bind (p_list p_trec) (fun recs => p_bind (p_list p_partial) (fun part =>
+  p_ret (mkScan outcome nkeys recs part))))).
+Definition TB (blob : list int) : scan :=
+  match p_scan (unpack blob) with
+  | Some (s, []) => s
+  | _ => mkScan 2 0 [] []
+  end.
+
+(* a Range that overlaps Delete 0 may report key 0 with the value stored before, or not at all; the pair (0, 0) - a
+   value nobody stored - is rejected; so is the stored value once the Delete had returned before the Range began, and
+   a Range that misses a key nobody touched *)
+Example scan_examples :
+  let st := mkT (OStore 0 5) RNone 1 2 in
+  let st1 := mkT (OStore 1 6) RNone 1 2 in
+  let dl (a b : nat) := mkT (ODelete 0) RNone (N.of_nat a) (N.of_nat b) in
+  let rg l (a b : nat) := mkT ORange (RList l) (N.of_nat a) (N.of_nat b) in
+  (scan_check [st; st1; dl 4 7; rg [(0, 5); (1, 6)] 3 8] [],
+   scan_check [st; st1; dl 4 7; rg [(1, 6)] 3 8] [],
+   scan_check [st; st1; dl 4 7; rg [(0, 0); (1, 6)] 3 8] [],
+   scan_check [st; st1; dl 3 4; rg [(0, 5); (1, 6)] 5 6] [],
+   scan_check [st; st1; dl 4 7; rg [(0, 5)] 3 8] [],
+   scan_check [st; st1; dl 4 7] [(3%N, 8%N, [(0, 0)])])
+  = (true, true, false, false, false, false).
+Proof. vm_compute. reflexivity. Qed.
+
 (* model vs implementation *)
 Definition check_case (c : case) : bool :=
   match c with
@@ -402,6 +470,7 @@ Definition check_case (c : case) : bool :=
   | CHist _ progs obs _ => model_accepts true progs obs          (* a trace of the REPAIRED concrete step model *)
   | CRace _ outcome _ => Nat.eqb outcome 0                        (* the model (c20_race_free) predicts no race *)
   | CStress _ s => stress_check s
+  | CScan _ s => scan_ok s
   end.
 
 (* the property on the implementation's observation *)
@@ -424,6 +493,7 @@ Definition oracle_case (c : case) : bool :=
   | CHist _ _ _ recs => linearizable_b recs && no_two_winners_b recs
   | CRace _ outcome _ => Nat.eqb outcome 0
   | CStress _ s => stress_oracle s
+  | CScan _ s => scan_ok s
   end.
 
 (* non-trivial: a script that reads back something it wrote (>= 4 ops); a history in which two operations of
@@ -439,6 +509,7 @@ Definition nontrivial (c : case) : bool :=
   | CHist _ _ _ recs => existsb (fun a => existsb (overlaps a) recs) recs
   | CRace _ _ nfail => Nat.leb 2 nfail
   | CStress _ s => Nat.leb 2 (length (filter (fun run => existsb (fun xr => xmutates (fst xr)) run) (s_runs s)))
+  | CScan _ s => scan_nontrivial s
   end.
 
 Definition mismatches (cs : list case) : list nat := map cid (filter (fun c => negb (check_case c)) cs).
